@@ -1096,6 +1096,8 @@ func (c *Client) CloseWithSMTPClient(client *smtp.Client) error {
 		return nil
 	}
 	if err := client.Quit(); err != nil {
+		// QUIT only closes the connection when the server confirms it
+		_ = client.Close()
 		return fmt.Errorf("failed to close SMTP client: %w", err)
 	}
 
